@@ -101,6 +101,8 @@ def run_shard(spec_, res):
             res.violation(f"C01:build-raises:{workload.exc_key(e)}", f"building case {i} through the API raised {e!r}", {"case_seed": spec_["seed"], "index": i})
             continue
         check_case(res, c, tier)
+        if i % 5 == 0:
+            workload.saves_into_positioned_streams(res, PROPERTY, c.obj, c.describe())
         if i == spec_["start"] and spec_["shard"] == 0:
             res.sample({"index": i, "modules": [None if m is None else m["type"] for m in c.snap["modules"]],
                         "patterns": [None if q is None else q["kind"] for q in c.snap["patterns"]],
